@@ -22,6 +22,12 @@ inline bool completeFrames(const OSnap& o) {
         if (aused > 0) { if (f.subs.size() != o.h.subPerFrame || f.subs.empty()) return false; for (auto& s : f.subs) if (s.size() != (size_t)aused) return false; }
         else if (!f.subs.empty()) return false;
     }
+    // "complete" also means: the sub-frames of every frame are the declared ANALOG:RATE / POINT:RATE ratio (1 when POINT:RATE is 0)
+    if (aused > 0 && !o.frames.empty()) {
+        float pr = pFloat(o, "POINT", "RATE"), ar = pFloat(o, "ANALOG", "RATE");
+        double ratio = pr == 0.0f ? 1.0 : (double)ar / (double)pr;
+        if (std::fabs(ratio - (double)o.h.subPerFrame) > 1e-3) return false;
+    }
     // names bound by position on reload: the statement presupposes labels name the points in data order
     std::vector<std::string> labels = pStrs(o, "POINT", "LABELS"), alabels = pStrs(o, "ANALOG", "LABELS");
     for (auto& f : o.frames) {
@@ -44,7 +50,7 @@ inline void compareContent(const OSnap& a, const OSnap& b, std::vector<std::stri
         if (a.h.nPoints != b.h.nPoints) add("header.points");
         if (a.h.nAnalogMeas != b.h.nAnalogMeas) add("header.analog_samples");
         if (a.h.nAnalogs != b.h.nAnalogs) add("header.channels");
-        if (a.h.subPerFrame != b.h.subPerFrame) add("header.subframes");
+        if (a.h.subPerFrame != b.h.subPerFrame) add("header.subframes/saved=" + S(a.h.subPerFrame) + ",loaded=" + S(b.h.subPerFrame) + (a.h.nAnalogs == 0 ? "/no-channels" : "/channels"));
         if (a.h.first != b.h.first) add("header.first_frame");
         if (a.h.last != b.h.last) add("header.last_frame");
         if (a.h.nFrames != b.h.nFrames) add("header.frames");
@@ -81,6 +87,9 @@ inline void compareContent(const OSnap& a, const OSnap& b, std::vector<std::stri
             if (fa.pts[k].v[0] != fb.pts[k].v[0] || fa.pts[k].v[1] != fb.pts[k].v[1] || fa.pts[k].v[2] != fb.pts[k].v[2]) add("point.xyz");
             if (fa.pts[k].v[3] != fb.pts[k].v[3]) add("point.residual");
         }
+        // sub-frames that hold no channel carry no sample: (k empty sub-frames) == (no sub-frame)
+        bool ea = true, eb = true; for (auto& x : fa.subs) if (!x.empty()) ea = false; for (auto& x : fb.subs) if (!x.empty()) eb = false;
+        if (ea && eb) continue;
         if (fa.subs.size() != fb.subs.size()) { add("frame.subframe_count"); continue; }
         for (size_t s = 0; s < fa.subs.size(); ++s) {
             if (fa.subs[s].size() != fb.subs[s].size()) { add("frame.channel_count"); continue; }
